@@ -7,6 +7,8 @@ CONSTANTS
   Consumed = 1
   SingleLE = TRUE
   MaxUnits = 3
+  FillMode = FALSE
+  SmallSet <- NoSizes
   LaterBatch = FALSE
   SizeSet <- SizesEdge
 INVARIANT SizeOK
